@@ -55,7 +55,7 @@ def gen_world(rng, tier="quick", cls=None, min_cells=4):
     north = rng.choice([0, 40, -10]) if latlon else rng.choice([0, 100])
     w = {"cls": cls, "ds": ds, "shape": list(shape), "dtype": "int32",
          "transform": [res[0], 0, rng.choice([0, 10]), 0, res[1], north], "latlon": latlon,
-         "cache": rng.random() < 0.8}
+         "cache": rng.random() < 0.8, "noncontig": rng.random() < 0.3}
     valid = [i for i in range(n) if ds[i] != n]
     # distinct upstream areas (no exact ties): accumulate distinct local areas
     loc = list(range(1, n + 1))
@@ -91,7 +91,13 @@ class World:
 
     def arr(self, key_or_list, dt):
         v = self.w[key_or_list] if isinstance(key_or_list, str) else key_or_list
-        return np.array(v, dtype=dt).reshape(self.shape)
+        a = np.array(v, dtype=dt).reshape(self.shape)
+        if self.w.get("noncontig") and a.ndim == 2:
+            # same values as a non-contiguous view (a window of a larger array, as users slice rasters)
+            big = np.zeros((a.shape[0], 2 * a.shape[1]), dtype=a.dtype)
+            big[:, ::2] = a
+            a = big[:, ::2]
+        return a
 
     def uparea_distinct(self):
         """upstream area with pairwise distinct values (so that main-stem choices are unique)"""
@@ -341,7 +347,7 @@ def _():
 def _():
     def call(W, a):
         import pyflwdir
-        d8 = np.array(ds_to_d8(W.w["ds"], W.shape), dtype=np.uint8).reshape(W.shape)
+        d8 = W.arr(ds_to_d8(W.w["ds"], W.shape), np.uint8)
         kw = {}
         if a["mask"]:
             kw["mask"] = ~W.arr("mask", bool)
@@ -677,3 +683,28 @@ def _():
                streams.stream_distance(W.flw.idxs_ds, W.flw.idxs_seq, W.shape[1], None, True, W.w["latlon"], t)]
         return tuple(out)
     return _noargs, call
+
+
+# ---- rivers.py wrappers ---------------------------------------------------------------------------
+@op("classify_estuaries", group="rivers")
+def _():
+    def call(W, a):
+        rivdst = W.arr("elev", np.float64) if a["own_dst"] else None   # integer-valued: equal distances occur
+        return W.flw.classify_estuaries(W.arr("elevf", np.float64) - a["shift"], W.arr("area_distinct", np.float64),
+                                        rivdst=rivdst, min_convergence=a["minc"], max_elevtn=a["maxz"])
+    return (lambda rng, w: {"own_dst": rng.random() < 0.7, "shift": rng.choice([0, 10, 40]), "minc": rng.choice([1e-2, 0.5, 2.0]),
+                            "maxz": rng.choice([0, 5, 30])}, call)
+
+
+@op("river_depth", group="rivers")
+def _():
+    def call(W, a):
+        kw = dict(qbankfull=W.arr("area_distinct", np.float64) * 3.0, rivwth=W.arr("elev", np.float64) + 5.0,
+                  manning=a["manning"], min_rivdph=a["min_rivdph"])
+        if a["slp"]:
+            kw["rivslp"] = (W.arr("elevf", np.float64) + 1.0) / 1000.0
+        else:
+            kw["zs"] = W.arr("elevf", np.float64)
+            kw["rivdst"] = W.arr("elev", np.float64) * 10.0
+        return W.flw.river_depth(**kw)
+    return (lambda rng, w: {"slp": rng.random() < 0.5, "manning": rng.choice([0.03, 0.05]), "min_rivdph": rng.choice([1, 0.5])}, call)
